@@ -266,8 +266,11 @@ func BuildSelect(query *Query, slct *sqlparser.Select) error {
 
 func BuildUnion(query *Query, expr *sqlparser.Union) error {
 	// either side may itself be a union: A UNION B UNION C is (A UNION B) UNION C
-	expr.Left.SetWith(expr.With)
-	expr.Right.SetWith(expr.With)
+	// a WITH in front of the union belongs to both sides; without one the sides keep their own
+	if expr.With != nil {
+		expr.Left.SetWith(expr.With)
+		expr.Right.SetWith(expr.With)
+	}
 	left, err := Prepare(query.data, expr.Left, query.options)
 	if err != nil {
 		return err
